@@ -32,6 +32,9 @@ pub fn alphabet() -> Vec<(String, Sett)> {
         ("*-->\n  \\\n   v".to_string(), b.clone()),
         ("┼".to_string(), b.clone()),
         ("<".to_string(), b.clone()),
+        // the same filled drawing under different colour settings (style sheet built from the settings)
+        ("*--#\n+--+\n|  |\n+--+".to_string(), Sett { fill_color: "red".into(), background: "#102030".into(), stroke_color: "green".into(), ..d.clone() }),
+        ("*--#\n+--+\n|  |\n+--+".to_string(), d.clone()),
     ]
 }
 
@@ -193,7 +196,7 @@ impl Prop for C07 {
         "C07"
     }
     fn rule(&self) -> &'static str {
-        "(a) histories: every sequence of up to 3 (thorough 4) conversions over a 12-member alphabet chosen to collide on the lazily built tables, each sequence in its own fresh process with the real once_cell tables, every output compared byte for byte \
+        "(a) histories: every sequence of up to 3 (thorough 4) conversions over a 14-member alphabet chosen to collide on the lazily built tables, each sequence in its own fresh process with the real once_cell tables, every output compared byte for byte \
          with the same conversion alone in a fresh process; (b) orders/processes: a corpus of ~15 000 inputs (thorough ~117 000: all 2-character neighbourhoods) is converted by 16 fresh processes, each in a different order (identity, reverse, 14 stride permutations: every ordered pair of inputs occurs in both relative orders), \
          and every output hash compared with this process's own result (different process = different hash seeds; also repeated 4 times in-process); (c) hash-order seam: for all 3x3 grids with <=3 (thorough 4) cells over 6 characters ALL n! iteration orders of the property map are forced, \
          for larger drawings a structured family of orders, also with the tables rebuilt under the forced order; (d) schedules: 2-3 threads converting from the uninitialised table state under an owned scheduler, all interleavings of the instrumented points with at most 2 preemptions (thorough: 3 for two threads), \
